@@ -53,7 +53,7 @@ theorem finish_frees_one_slot (c : BCfg) (s s' : St) (b : Nat) (h : step c s (.f
 /-- operations that cannot get a slot stay buffered: a cycle step that finds no free slot leaves the buffer
 content and the demand untouched (it only moves the cursor) -/
 theorem no_slot_no_release (c : BCfg) (s s' : St) (a : Nat) (acc : Acc) (i : Nat) (op : Op)
-    (hl : s.loop = .cycle a acc) (hc : s.bm.buf.cur = some i) (ho : s.bm.buf.items[i]? = some op)
+    (hl : s.loop = .cycle a acc) (hc : curPos c s = some i) (ho : s.bm.buf.items[i]? = some op)
     (hk : stepOp (cycleCfg c a) acc (slotFree c s) op = .skip) (h : step c s .cycleStep = some s') :
     s'.bm.buf.items = s.bm.buf.items ∧ s'.batches = s.batches ∧ s'.slots = s.slots ∧ s'.target = s.target := by
   simp only [step, hl, hc, ho, hk] at h
